@@ -15,8 +15,9 @@ def catalogue():
         'f1_5': 1.5, 'i3': 3, 'npf2_5': np.float64(2.5), 'f4': 4.0, 'i5': 5,
         'zero': 0, 'neg': -2.0, 'nan': float('nan'), 'inf': float('inf'), 'str': 'abc', 'none': None,
         'list': [1.0, 2.0], 'arr0d': np.array(2.0), 'arr1d': np.array([1.0, 2.0]),
-        'qpix': 2 * u.pix, 'qm': 1 * u.m,
-        'pA': PixCoord(1, 2), 'pB': PixCoord(3.5, -1.0), 'pAc': PixCoord(1 + 1e-7, 2), 'pAf': PixCoord(1.001, 2), 'parr3': PixCoord([0, 4, 2], [0, 0, 3]),
+        'qpix': 2 * u.pix, 'qm': 1 * u.m, 'qdimless': u.Quantity(0.5), 'qpercent': 3 * u.percent,
+        'pA': PixCoord(1, 2), 'pB': PixCoord(3.5, -1.0), 'pAc': PixCoord(1 + 1e-7, 2), 'pAf': PixCoord(1.001, 2),
+        'pFar': PixCoord(2000.0, 3.0), 'pFarC': PixCoord(2000.005, 3.0), 'pO': PixCoord(0.0, 0.0), 'pOc': PixCoord(4e-6, 0.0), 'parr3': PixCoord([0, 4, 2], [0, 0, 3]),
         'parr4': PixCoord([0.0, 4, 4, 0], [0.0, 0, 3, 3]), 'p2d': PixCoord([[0, 1], [2, 3]], [[0, 1], [2, 3]]),
         'tuple': (1, 2),
         'sA': sA, 'sB': sB, 'sarr3': SkyCoord([1, 2, 3], [4, 5, 5.5], unit='deg'),
@@ -46,6 +47,23 @@ def classes():
         'PointSky': R.PointSkyRegion, 'LineSky': R.LineSkyRegion, 'TextSky': R.TextSkyRegion,
         'CompoundPix': R.CompoundPixelRegion, 'CompoundSky': R.CompoundSkyRegion,
     }
+
+
+def val_of(tok):
+    """meta/visual value tokens: vlist is a fresh list each time (a list-valued entry such as tag)."""
+    if tok == 'vlist':
+        return ['a', 'b']
+    if tok == 'vlist2':
+        return ['a', 'b', 'appended']
+    return tok
+
+
+def tok_of_val(v):
+    if v == ['a', 'b']:
+        return 'vlist'
+    if v == ['a', 'b', 'appended']:
+        return 'vlist2'
+    return v
 
 
 def dict_token(tok, which):
@@ -116,7 +134,7 @@ class World:
         for i, d in enumerate(pre['dicts'], 1):
             o = RegionMeta() if d['which'] == 'meta' else RegionVisual()
             for k, v in fmap(d['kv']).items():
-                dict.__setitem__(o, k, v)
+                dict.__setitem__(o, k, val_of(v))
             dobjs[i] = o
         for s, h in enumerate(pre['heap'], 1):
             if h['cls'] == 'none':
@@ -155,6 +173,8 @@ class World:
             elif a == 'meta':
                 m = getattr(self.slots[act['slot']], act['which'])
                 k, v, how = act['key'], act['value'], act['how']
+                v_tok = v
+                v = val_of(v)
                 if how == 'setitem':
                     m[k] = v
                 elif how == 'update':
@@ -163,6 +183,18 @@ class World:
                     m.update(**{k: v})
                 elif how == 'setdefault':
                     m.setdefault(k, v)
+                elif how in ('update_same', 'update_other', 'ior_other'):
+                    from regions import RegionMeta, RegionVisual
+                    same = type(m)
+                    other = RegionVisual if isinstance(m, RegionMeta) else RegionMeta
+                    arg = (same if how == 'update_same' else other)()
+                    dict.__setitem__(arg, k, val_of(v))          # an instance that already holds the entry
+                    if how == 'ior_other':
+                        m |= arg
+                    else:
+                        m.update(arg)
+                elif how == 'nested_append':
+                    m[k].append('appended')
                 elif how == 'ior':
                     m |= {k: v}
                     if m is not getattr(self.slots[act['slot']], act['which']):
@@ -178,6 +210,11 @@ class World:
             elif a == 'copy':
                 self.slots[act['to']] = self.slots[act['slot']].copy()
                 self.clsname[act['to']] = self.clsname[act['slot']]
+            elif a == 'copyas':
+                src = self.slots[act['slot']]
+                new = self.cls[act['cls']](**{p: getattr(src, p) for p in src._params}, meta=src.meta.copy(), visual=src.visual.copy())
+                self.slots[act['to']] = new
+                self.clsname[act['to']] = act['cls']
             elif a == 'copywith':
                 self.slots[act['to']] = self.slots[act['slot']].copy(**{act['field']: self.val(act['value'])})
                 self.clsname[act['to']] = self.clsname[act['slot']]
@@ -216,12 +253,23 @@ class World:
         ids = {}
         dicts = []
 
+        nested = {}
+
+        def val(v):
+            # list-valued entries carry an identity number (first-seen order), so that a list shared between two
+            # dicts is visible in the projection
+            if isinstance(v, list):
+                if id(v) not in nested:
+                    nested[id(v)] = len(nested) + 1
+                return [tok_of_val(v), nested[id(v)]]
+            return tok_of_val(v)
+
         def did(o):
             if not isinstance(o, dict):
                 return f'<{type(o).__name__}>'
             if id(o) not in ids:
                 ids[id(o)] = len(ids) + 1
-                dicts.append({'type': type(o).__name__, 'kv': {str(k): v for k, v in dict(o).items()}})
+                dicts.append({'type': type(o).__name__, 'kv': {str(k): val(o[k]) for k in sorted(dict(o), key=str)}})
             return ids[id(o)]
         for s in range(1, nslots + 1):
             if s not in self.slots:
@@ -237,10 +285,18 @@ class World:
 
 
 def model_view(heap, dicts):
-    """Model state -> same canonical form as World.project (dict ids renumbered in first-use order)."""
+    """Model state -> same canonical form as World.project (dict ids renumbered in first-use order; every list-valued
+    entry is its own object in the model, numbered in the same first-seen order)."""
     ids = {}
     out_d = []
     out_h = []
+    nested = [0]
+
+    def val(v):
+        if v in ('vlist', 'vlist2'):
+            nested[0] += 1
+            return [v, nested[0]]
+        return v
     for h in heap:
         if h['cls'] == 'none':
             out_h.append({'cls': 'none'})
@@ -251,7 +307,8 @@ def model_view(heap, dicts):
             if i not in ids:
                 ids[i] = len(ids) + 1
                 d = dicts[i - 1]
-                out_d.append({'type': 'RegionMeta' if d['which'] == 'meta' else 'RegionVisual', 'kv': fmap(d['kv'])})
+                kv = fmap(d['kv'])
+                out_d.append({'type': 'RegionMeta' if d['which'] == 'meta' else 'RegionVisual', 'kv': {k: val(kv[k]) for k in sorted(kv)}})
             o[w] = ids[i]
         out_h.append(o)
     return out_h, out_d
